@@ -86,17 +86,27 @@ func (sv structValue) findField(name string) (*reflect.StructField, bool) {
 	return nil, false
 }
 
+var errorType = reflect.TypeOf((*error)(nil)).Elem()
+
+// invoke calls a method or function-valued field as a property: a function of no arguments that
+// returns a value, or a value and an error. Anything else (no result, a second result that is
+// not an error) is not a property, and reads as nil.
 func (sv structValue) invoke(fv reflect.Value) Value {
 	if fv.IsNil() {
 		return nilValue
 	}
 	mt := fv.Type()
-	if mt.NumIn() > 0 || mt.NumOut() > 2 {
+	if mt.NumIn() > 0 || mt.NumOut() < 1 || mt.NumOut() > 2 {
+		return nilValue
+	}
+	if mt.NumOut() == 2 && !mt.Out(1).Implements(errorType) {
 		return nilValue
 	}
 	results := fv.Call([]reflect.Value{})
 	if len(results) > 1 && !results[1].IsNil() {
-		panic(results[1].Interface())
+		// a TypeError is turned back into an error by the evaluator; any other value would
+		// pass through it as a panic
+		panic(typeErrorf("%s", results[1].Interface()))
 	}
 	return ValueOf(results[0].Interface())
 }
